@@ -26,6 +26,13 @@ func c03Judge(c schedCase, res *schedResult) error {
 	if !res.settled {
 		return verifkit.Violatef("C03: change did not settle within the step bound\n%s", res.describe())
 	}
+	// every handler that returned an error makes its task a failed task (added
+	// after a second-round seeded change turned errors of aborted tasks into retries)
+	for i := range c.Tasks {
+		if len(h.cnt.failedMsg[i]) > 0 && res.final[i] != ErrorStatus {
+			return verifkit.Violatef("C03: a handler of task %d failed with %q but the task ended %s and is not reported as failed\n%s", i, h.cnt.failedMsg[i][len(h.cnt.failedMsg[i])-1], res.final[i], res.describe())
+		}
+	}
 	for ci := range h.chgs {
 		if len(h.chgs[ci].taskIDs) == 0 {
 			continue
